@@ -23,6 +23,7 @@ EXPLANATION = (
 EXPLANATION += ' Added after the seeded-change rounds: ' + 'D1 also: after a bucket-lock upgrade that released the lock, every pointer the chain mutation uses (node, predecessor) is recomputed on every path before the mutation.'
 EXPLANATION += ' Added in the third session (round-3 seeds and the findings they led to): ' + 'D3 also: the element lock is waited for outside the bucket lock scope (anchored on the acquisition) and, class-wide, no blocking element-lock acquisition happens while a bucket lock is held.'
 EXPLANATION += ' Added in the fifth seeding round: ' + 'D4 also: every operation that receives an accessor releases it before lookup() acquires an element lock through it (in the operation or in the helper the accessor is forwarded to; sibling agreement over all find / insert / emplace overloads) - otherwise the element the accessor held stays locked for ever.'
+EXPLANATION += ' D5 also: between insert_new_node and the return (within the attempt that linked the node) no call that may allocate stands outside a try block - the thread that inserted gets to report it.'
 ASSUMPTIONS = ['instantiations: concurrent_hash_map<int,int> and <string,string> (explicit instantiation)', 'rw scoped lock model']
 ND = ['linearizability of the map operations', 'no loss across lazy rehash for all hash functions / growth schedules']
 
@@ -34,6 +35,7 @@ def run(facts, rep):
     d4_typing(facts, rep)
     d5_success(facts, rep)
     d4_accessor_released_before_reuse(facts, rep)
+    d5_no_failure_after_the_insertion(facts, rep)
 
 
 def witnesses(rep, tier):
@@ -427,3 +429,54 @@ def d4_accessor_released_before_reuse(facts, rep):
                    key_extra='acc-release|%s|%s' % (fn.p.split('::')[-1], 'const' if 'const_accessor' in p['ty'] else 'rw'))
     if n < 6:
         raise AnalysisBroken('concurrent_hash_map: public operations with an accessor argument that reach lookup(): %d (expected >= 6)' % n)
+
+
+def d5_no_failure_after_the_insertion(facts, rep):
+    """"of several concurrent inserts of an absent key exactly one returns true": the thread whose node was linked is that one -
+    it must get to report it.  In lookup<insert> an allocation after insert_new_node (the deferred growth: enable_segment
+    allocates a bucket array) that fails turns the successful insertion into an exception: the key is in the map, my_size
+    counts it, nobody was told `true`, a retry returns false, and the node that lost a race (tmp_n) leaks.  Rule (K9): between
+    insert_new_node and the return - within the attempt that linked the node, i.e. up to the next bucket acquisition - no call
+    that may allocate (transitively: allocator allocate / allocate_memory / a non-placement new) stands outside a try block."""
+    from engine.rules import Summaries
+    summ = Summaries(facts, max_depth=4)
+
+    def allocates(g, pos, e):
+        if not isinstance(e, int):
+            return False
+        nd = g.nodes[e]
+        if nd.get('k') == 'new':
+            return not nd.get('pl')
+        return nd.get('k') == 'call' and (g.callee(e) or {}).get('n') in ('allocate', 'allocate_memory', 'cache_aligned_allocate')
+    n = 0
+    for fn in facts.get(CHM + 'lookup'):
+        ins = calls_named(fn, ('insert_new_node',))
+        if not ins:
+            continue
+        # a new attempt starts where the bucket is acquired again
+        attempt = set(pos for pos, s, nd in fn.stmt_elems(('ctor', 'call')) if (nd.get('cls') or '').endswith('bucket_accessor') or
+                      ((fn.callee(s) or {}).get('n') == 'acquire' and ((fn.callee(s) or {}).get('cls') or '').endswith('bucket_accessor')))
+        if not attempt:
+            raise AnalysisBroken('concurrent_hash_map::lookup: bucket acquisition not found')
+        bad = []
+        for pos, sx, node, d in ins:
+            reached, ex, par = fn.walk(pos, stop_elem=lambda q, e: q in attempt)
+            for q in reached:
+                if q == pos or q in attempt:
+                    continue
+                e = fn.elems(q[0])[q[1]]
+                if not isinstance(e, int) or fn.nodes[e].get('k') not in ('call', 'ctor', 'new'):
+                    continue
+                nd = fn.nodes[e]
+                if nd.get('tr') is not None:
+                    continue
+                g = facts.fns.get(nd.get('fn'))
+                if allocates(fn, q, e) or (g is not None and summ.may(g, 'allocates', allocates)):
+                    bad.append('%s at line %s' % ((fn.callee(e) or {}).get('n') or nd.get('k'), nd.get('ln')))
+        n += 1
+        rep.ob('D5', 'K9', fn, 'no allocation stands unguarded between linking the new node and reporting the insertion', not bad,
+               '%s can throw bad_alloc after insert_new_node: insert()/emplace() leave by exception although the key is in the map and counted - '
+               'no insert of that key ever returns true, a retry returns false, and a node that lost the race leaks' % ', '.join(sorted(set(bad))),
+               key_extra='post-insert-throw')
+    if n < 1:
+        raise AnalysisBroken('concurrent_hash_map::lookup<insert> not instantiated')
